@@ -85,7 +85,8 @@ def teardown_atomizer(F, nostd):
                             if symex.cmp_holds(op, dd) == t:
                                 vals.add(sc)
                         return ('strong', vals)
-        if is_call(inner, r'core::cmp::PartialEq>?::(ne|eq)$') and mentions(inner, lambda x: (x[0] == 'field' and x[2] == 'original_thread') or (x[0] == 'ref' and any(e == ('f', 'original_thread') for e in x[1][1]))) \
+        # the creating thread, kept somewhere in the shared state (whatever the field is called / wrapped in), against the current one
+        if is_call(inner, r'core::cmp::PartialEq>?::(ne|eq)$') and mentions(inner, lambda x: (x[0] == 'field' and x[2] in ('original_thread', 'shared_state')) or (x[0] == 'ref' and any(e in (('f', 'original_thread'), ('f', 'shared_state')) for e in x[1][1]))) \
                 and mentions(inner, lambda x: is_call(x, r'^std::thread::current$')):
             ne = inner[1].endswith('::ne')
             return ('foreign_thread', {int(t if ne else (not t))})
@@ -542,70 +543,68 @@ def clone_and_ctor(chk, F, rule, config):
                    what='%s not fresh' % fld, found=show(x), expected='a newly constructed empty value')
     chk.sample({'fn': fn.defp, 'returns': show(paths[0].outcome[1]) if paths else None})
 
-    fa = F.method('Unimock', 'from_assembler')
-    paths = symex.Interp(F, inline=lambda c, d, n: bool(re.search(r'^state::SharedState::new$', n))).run(fa)
-
-    def atom(d, p):
-        v = strip(d.value)
-        if v[0] == 'discr' and v[1] == ('param', 0, 1):
-            var = decision_variant(F, d)
-            if isinstance(var, str):
-                return ('assembled', {var})
-        return None
-
-    def outcome(p):
-        if p.outcome[0] == 'diverge':
-            return 'panic'
-        v = strip(p.outcome[1])
-        if v[0] != 'agg':
-            return 'other'
-        d = dict(v[4])
-        flags = (d.get('original_instance'), d.get('torn_down'), d.get('verify_in_drop'))
-        if flags != (('c', True), ('c', False), ('c', True)):
-            return 'bad-flags:%s' % (tuple(show(x) if x else None for x in flags),)
-        ss = d.get('shared_state', ('unk', '?'))
-        if not (is_call(ss, r'Arc::new$') and ss[2]):
-            return 'bad-state:%s' % show(ss)
-        st = strip(ss[2][0])
-        if st[0] == 'agg' and st[2] == 'state::SharedState':
-            sd = dict(st[4])
-            if sd.get('fallback_mode') != ('param', 0, 2):
-                return 'bad-fallback:%s' % show(sd.get('fallback_mode'))
-            fm = sd.get('fn_mockers', ('unk', '?'))
-            if not (is_call(fm, r'MockAssembler::finish$') and strip(fm[2][0]) == ('field', ('as', ('param', 0, 1), 'Ok'), '0')):
-                return 'bad-fn_mockers:%s' % show(fm)
-            if 'nostd' not in config:
-                ot = sd.get('original_thread', ('unk', '?'))
-                if not (is_call(ot, r'std::thread::Thread::id$') and mentions(ot, lambda x: is_call(x, r'^std::thread::current$'))):
-                    return 'bad-thread:%s' % show(ot)
-            pr = sd.get('panic_reasons', ('unk', '?'))
-            if not (is_call(pr, r'MutexIsh::new$')):
-                return 'bad-reasons:%s' % show(pr)
-            ni = sd.get('next_ordered_call_index', ('unk', '?'))
-            if not (is_call(ni, r'Atomic\w*::new$') and ni[2] and ni[2][0] == ('c', 0)):
-                return 'bad-index:%s' % show(ni)
-            return 'fresh-original'
-        return 'bad-state:%s' % show(st)
-    rows = tables.abstract(paths, atom, outcome)
-    tables.check_table(chk, rule, fa, rows, [
-        ('assembly error => construction panics', {'assembled': {'Err'}}, 'panic'),
-        ('assembled => fresh original instance with fresh shared state', {'assembled': {'Ok'}}, 'fresh-original'),
-    ], config=config)
-    # public constructors pass the documented fallback mode
+    # constructors, analysed as a whole: the private helpers they go through (today: from_assembler -> SharedState::new) are part of them
+    fa = None
+    ctor_inline = lambda c, d, n: (c.defp.startswith('Unimock::') and c.vis != 'Public' and c.kind in ('fn', 'assoc')) or bool(re.search(r'^state::SharedState::new$', n))  # noqa: E731
     for name, mode in (('new', 'Error'), ('new_partial', 'Unmock')):
         f = F.method('Unimock', name)
-        ps = symex.Interp(F).run(f)
-        for p in ps:
-            calls = [e for e in p.calls(r'^Unimock::from_assembler$')]
-            ok = len(calls) == 1 and p.outcome[0] == 'return' and is_call(strip(p.outcome[1]), r'^Unimock::from_assembler$')
-            m = None
-            if calls:
-                a = strip(calls[0].data[2][1])
-                m = a[3] if a[0] == 'agg' else show(a)
-                first = strip(calls[0].data[2][0])
-                ok = ok and is_call(first, r'MockAssembler::try_from_clause$') and strip(first[2][0]) == ('param', 0, 1)
-            chk.ob(rule, 'Unimock::%s builds from its clause with FallbackMode::%s and does nothing else' % (name, mode), ok and m == mode,
-                   config=config, fn=f, site='from_assembler', what='constructor wiring', found={'mode': m}, expected=mode)
+        fa = fa or f
+        paths = symex.Interp(F, inline=ctor_inline, max_depth=4).run(f)
+
+        def assembled_call(v):
+            return is_call(v, r'MockAssembler::try_from_clause$') and strip(v[2][0]) == ('param', 0, 1)
+
+        def atom(d, p):
+            v = strip(d.value)
+            if v[0] == 'discr' and assembled_call(strip(v[1])):
+                var = decision_variant(F, d)
+                if isinstance(var, str):
+                    return ('assembled', {var})
+            return None
+
+        def outcome(p, mode=mode):
+            if p.outcome[0] == 'diverge':
+                return 'panic'
+            v = strip(p.outcome[1])
+            if v[0] != 'agg':
+                return 'other'
+            d = dict(v[4])
+            flags = (d.get('original_instance'), d.get('torn_down'), d.get('verify_in_drop'))
+            if flags != (('c', True), ('c', False), ('c', True)):
+                return 'bad-flags:%s' % (tuple(show(x) if x else None for x in flags),)
+            ss = d.get('shared_state', ('unk', '?'))
+            if not (is_call(ss, r'Arc::new$') and ss[2]):
+                return 'bad-state:%s' % show(ss)
+            st = strip(ss[2][0])
+            if st[0] == 'agg' and st[2] == 'state::SharedState':
+                sd = dict(st[4])
+                fbm = strip(sd.get('fallback_mode', ('unk', '?')))
+                if not (fbm[0] == 'agg' and fbm[3] == mode):
+                    return 'bad-fallback:%s' % show(fbm)
+                fm = sd.get('fn_mockers', ('unk', '?'))
+                src = strip(fm[2][0]) if is_call(fm, r'MockAssembler::finish$') and fm[2] else ('unk', '?')
+                if not (src[0] == 'field' and src[2] == '0' and strip(src[1])[0] == 'as' and strip(src[1])[2] == 'Ok' and assembled_call(strip(strip(src[1])[1]))):
+                    return 'bad-fn_mockers:%s' % show(fm)
+                if 'nostd' not in config:
+                    # some field of the fresh state records the creating thread: Thread::id(thread::current()) taken at construction
+                    if not mentions(st, lambda x: is_call(x, r'std::thread::Thread::id$') and mentions(x, lambda y: is_call(y, r'^std::thread::current$'))):
+                        return 'bad-thread:%s' % show(sd.get('original_thread', ('unk', '?')))
+                pr = sd.get('panic_reasons', ('unk', '?'))
+                if not (is_call(pr, r'MutexIsh::new$')):
+                    return 'bad-reasons:%s' % show(pr)
+                ni = sd.get('next_ordered_call_index', ('unk', '?'))
+                if not (is_call(ni, r'Atomic\w*::new$') and ni[2] and ni[2][0] == ('c', 0)):
+                    return 'bad-index:%s' % show(ni)
+                return 'fresh-original'
+            return 'bad-state:%s' % show(st)
+        rows = tables.abstract(paths, atom, outcome)
+        tables.check_table(chk, rule, f, rows, [
+            ('assembly error => construction panics', {'assembled': {'Err'}}, 'panic'),
+            ('assembled => fresh original instance with fresh shared state and FallbackMode::%s' % mode, {'assembled': {'Ok'}}, 'fresh-original'),
+        ], config=config)
+        for p in paths:
+            n_asm = len(list(p.calls(r'MockAssembler::try_from_clause$')))
+            chk.ob(rule, 'Unimock::%s builds from its clause with FallbackMode::%s and does nothing else' % (name, mode), n_asm == 1, config=config, fn=f, site='from_assembler', what='constructor assembles %d times' % n_asm, found=n_asm)
     return fn, fa
 
 
@@ -661,10 +660,10 @@ def report_table(chk, F, rule, config):
 
 
 HELPER_CLONE_ALLOW = {
-    r'^<Unimock as core::convert::AsRef<default_impl_delegator::DefaultImplDelegator>>::as_ref::\{closure#\d+\}$': 'helper stored in default_impl_delegator_cell (released by teardown first)',
-    r'^<Unimock as core::convert::AsMut<default_impl_delegator::DefaultImplDelegator>>::as_mut::\{closure#\d+\}$': 'helper stored in default_impl_delegator_cell',
-    r'^<core::pin::Pin<&\'u mut Unimock> as default_impl_delegator::DelegateToDefaultImpl>::to_delegator$': 'helper stored in default_impl_delegator_cell',
-    r'^<std::(rc::Rc|sync::Arc)<Unimock> as default_impl_delegator::DelegateToDefaultImpl>::(to|from)_delegator$': 'Rc/Arc receivers: transient handle for the duration of the provided method (see R15.5)',
+    r'^<Unimock as core::convert::AsRef<default_impl_delegator::DefaultImplDelegator>>::as_ref(::\{closure#\d+\})?$': 'helper stored in default_impl_delegator_cell (released by teardown first)',
+    r'^<Unimock as core::convert::AsMut<default_impl_delegator::DefaultImplDelegator>>::as_mut(::\{closure#\d+\})?$': 'helper stored in default_impl_delegator_cell',
+    r'^<core::pin::Pin<&\'u mut Unimock> as default_impl_delegator::DelegateToDefaultImpl>::to_delegator(::\{closure#\d+\})?$': 'helper stored in default_impl_delegator_cell',
+    r'^<std::(rc::Rc|sync::Arc)<Unimock> as default_impl_delegator::DelegateToDefaultImpl>::(to|from)_delegator(::\{closure#\d+\})?$': 'Rc/Arc receivers: transient handle for the duration of the provided method (see R15.5)',
     r'^private::clone_unimock$': 'public helper returning the clone to generated code',
     r'^<default_impl_delegator::DefaultImplDelegator as core::clone::Clone>::clone$': 'derive(Clone) of the helper wrapper',
 }
